@@ -19,6 +19,8 @@ import (
 	"time"
 
 	"pgregory.net/rapid"
+
+	"verif/harness/quiesce"
 )
 
 // Failure is what a case runner returns when the oracle rejects the case.
@@ -261,6 +263,87 @@ func Check[C any](t *testing.T, baseChecks int, gen func(*rapid.T) C, run func(C
 	}
 	mu.Unlock()
 }
+
+// A bounded wait that ran out is not a verdict by itself (the machine may be busy). HangVerdict decides: it looks at
+// the goroutines whose stack contains marker twice, 3 s apart. Only if such a goroutine shows the same call chain both
+// times, no progress was counted in between, and its innermost frame outside the Go runtime and standard library is
+// mosdns code (blocked or spinning there) is it a hang of the code under test. Anything else is "inconclusive".
+func HangVerdict(marker string, progress func() int64) (bool, string) {
+	var p0 int64
+	if progress != nil {
+		p0 = progress()
+	}
+	d0 := quiesce.With(marker)
+	time.Sleep(3 * time.Second)
+	d1 := quiesce.With(marker)
+	if progress != nil && progress() != p0 {
+		return false, "slow but progressing"
+	}
+	chain := func(g quiesce.G) (string, string) {
+		var fns []string
+		inner := ""
+		for _, l := range strings.Split(g.Stack, "\n")[1:] {
+			if l == "" || l[0] == '\t' || strings.HasPrefix(l, "created by ") {
+				continue
+			}
+			fn := l
+			if k := strings.LastIndexByte(fn, '('); k > 0 {
+				fn = fn[:k]
+			}
+			fns = append(fns, fn)
+			if inner == "" && (strings.Contains(fn, "IrineSistiana/mosdns") || strings.HasPrefix(fn, "verif/harness/")) {
+				inner = fn
+			}
+		}
+		return strings.Join(fns, "<"), inner
+	}
+	before := map[string]string{}
+	for _, g := range d0 {
+		c, _ := chain(g)
+		before[g.ID] = c
+	}
+	for _, g := range d1 {
+		c, inner := chain(g)
+		if before[g.ID] == c && strings.Contains(inner, "IrineSistiana/mosdns") {
+			lines := strings.Split(g.Stack, "\n")
+			if len(lines) > 13 {
+				lines = lines[:13]
+			}
+			return true, strings.Join(lines, "\n")
+		}
+	}
+	return false, "no goroutine is stuck inside mosdns code"
+}
+
+// WaitBounded waits for wg at most d. done=false means it gave up; hang=true means HangVerdict found the code under
+// test stuck (detail has the stack), hang=false that the wait is merely inconclusive.
+func WaitBounded(wg *sync.WaitGroup, d time.Duration, marker string, progress func() int64) (done, hang bool, detail string) {
+	ch := make(chan struct{})
+	go func() { wg.Wait(); close(ch) }()
+	select {
+	case <-ch:
+		return true, false, ""
+	case <-time.After(d):
+	}
+	hang, detail = HangVerdict(marker, progress)
+	return false, hang, detail
+}
+
+// CallBounded runs f in a goroutine and waits at most d for it; results as for WaitBounded.
+func CallBounded(d time.Duration, f func()) (done, hang bool, detail string) {
+	ch := make(chan struct{})
+	go func() { defer close(ch); boundedCall(f) }()
+	select {
+	case <-ch:
+		return true, false, ""
+	case <-time.After(d):
+	}
+	hang, detail = HangVerdict("hx.boundedCall", nil)
+	return false, hang, detail
+}
+
+//go:noinline
+func boundedCall(f func()) { f() }
 
 // Manual is for enumerations that are not driven by rapid (exhaustive axes).
 // fn reports each evaluated case through the returned recorder.
